@@ -3,7 +3,7 @@
 From Coq Require Import ZArith Reals List Bool.
 From PW Require Import Num NumR Vec NpList Result.
 From PW.model Require Import M_polyline_base M_segment M_polyline_nearest.
-From PW.proofs Require Import P_segment P_polyline_nearest P_polyline_nearest2.
+From PW.proofs Require Import P_segment P_polyline_nearest P_polyline_nearest2 P_polyline_nearest3.
 Import ListNotations.
 Local Open Scope R_scope.
 
@@ -27,14 +27,6 @@ Proof. exact on_segment_iff. Qed.
 Theorem C07_on_segment_uses_closest_point : forall p a v eps,
   on_segment ROps p a v eps = true <-> sqdist ROps (closest_point ROps p a v) p <= eps * eps.
 Proof. exact on_segment_is_closest_within. Qed.
-
-(* the stacked (pairwise) forms are the single form row by row *)
-Theorem C07_pairwise_is_rowwise : forall ps sa sv eps k p a v,
-  nth_error ps k = Some p -> nth_error sa k = Some a -> nth_error sv k = Some v ->
-  nth_error (closest_points_pairs ROps ps sa sv) k = Some (closest_point ROps p a v) /\
-  nth_error (closest_ts_pairs ROps ps sa sv) k = Some (closest_t ROps p a v) /\
-  nth_error (on_segment_pairs ROps ps sa sv eps) k = Some (on_segment ROps p a v eps).
-Proof. exact pairs_are_rowwise. Qed.
 
 (* ---- Polyline.nearest ------------------------------------------------------------------------------- *)
 (* a polyline with at least one segment always gets an answer, for any number of query points *)
@@ -146,12 +138,59 @@ Theorem C07_aligned_along_subsegment_spec_partial :
        r = (if f then MkPolyline (rev (pv pl)) (pclosed pl) else pl)).
 Proof. exact aligned_spec. Qed.
 
-(* non-vacuity: a polyline with a zero-length segment has segments, and the hypotheses of the slicing theorem
-   are met by a concrete open polyline (checked by the correspondence cases as well) *)
+(* on a closed polyline with at least one vertex sliced_at_points always answers (no refusal: it can wrap) *)
+Theorem C07_sliced_at_points_closed_total : forall pl a b, pclosed pl = true -> pv pl <> [] ->
+  exists r, sliced_at_points ROps pl a b = Ok r.
+Proof. exact sliced_closed_total. Qed.
+
+(* definitional: pins the shape of the model; the content is carried by the traced ties / correspondence *)
+(* the stacked (pairwise) forms are the single form row by row *)
+Theorem C07_pairwise_is_rowwise : forall ps sa sv eps k p a v,
+  nth_error ps k = Some p -> nth_error sa k = Some a -> nth_error sv k = Some v ->
+  nth_error (closest_points_pairs ROps ps sa sv) k = Some (closest_point ROps p a v) /\
+  nth_error (closest_ts_pairs ROps ps sa sv) k = Some (closest_t ROps p a v) /\
+  nth_error (on_segment_pairs ROps ps sa sv eps) k = Some (on_segment ROps p a v eps).
+Proof. exact pairs_are_rowwise. Qed.
+
+
+(* non-vacuity. A polyline with a zero-length segment has segments; and concrete inputs meet the hypotheses of every
+   conditional sub-path theorem: open polyline (0,0,0)-(4,0,0) with a = (1,1,0), b = (3,1,0) (forward) and exchanged
+   (backward); closed triangle (0,0,0)-(4,0,0)-(4,3,0) with a = (1,-1,0), b = (3,-1,0) (forward) and exchanged (wrap). *)
 Example C07_has_segments : pl_segments (MkPolyline [V3 0 0 0; V3 1 0 0; V3 1 0 0] true) <> [].
 Proof. cbn. discriminate. Qed.
+Example C07_sliced_open_forward_inhabited : exists pl a b ra rb,
+  pclosed pl = false /\ nearest_one ROps pl a = Ok ra /\ index_of_vertex ROps (pv pl) (n_pt ra) = None /\
+  nearest_one ROps (MkPolyline (insert_at (pv pl) (S (n_idx ra)) (n_pt ra)) false) b = Ok rb /\
+  index_of_vertex ROps (insert_at (pv pl) (S (n_idx ra)) (n_pt ra)) (n_pt rb) = None /\
+  (S (n_idx ra) <= n_idx rb)%nat.
+Proof. exact sliced_open_forward_inhabited. Qed.
+Example C07_sliced_open_backward_inhabited : exists pl a b ra rb,
+  pclosed pl = false /\ nearest_one ROps pl a = Ok ra /\ index_of_vertex ROps (pv pl) (n_pt ra) = None /\
+  nearest_one ROps (MkPolyline (insert_at (pv pl) (S (n_idx ra)) (n_pt ra)) false) b = Ok rb /\
+  index_of_vertex ROps (insert_at (pv pl) (S (n_idx ra)) (n_pt ra)) (n_pt rb) = None /\
+  (n_idx rb <= n_idx ra)%nat.
+Proof. exact sliced_open_backward_inhabited. Qed.
+Example C07_sliced_closed_forward_inhabited : exists pl a b ra rb,
+  pclosed pl = true /\ nearest_one ROps pl a = Ok ra /\ index_of_vertex ROps (pv pl) (n_pt ra) = None /\
+  nearest_one ROps (MkPolyline (insert_at (pv pl) (edge_end pl (n_idx ra)) (n_pt ra)) true) b = Ok rb /\
+  index_of_vertex ROps (insert_at (pv pl) (edge_end pl (n_idx ra)) (n_pt ra)) (n_pt rb) = None /\
+  (edge_end pl (n_idx ra) <
+   edge_end (MkPolyline (insert_at (pv pl) (edge_end pl (n_idx ra)) (n_pt ra)) true) (n_idx rb))%nat.
+Proof. exact sliced_closed_inhabited. Qed.
+Example C07_sliced_closed_wrap_inhabited : exists pl a b ra rb,
+  pclosed pl = true /\ nearest_one ROps pl a = Ok ra /\ index_of_vertex ROps (pv pl) (n_pt ra) = None /\
+  nearest_one ROps (MkPolyline (insert_at (pv pl) (edge_end pl (n_idx ra)) (n_pt ra)) true) b = Ok rb /\
+  index_of_vertex ROps (insert_at (pv pl) (edge_end pl (n_idx ra)) (n_pt ra)) (n_pt rb) = None /\
+  (edge_end (MkPolyline (insert_at (pv pl) (edge_end pl (n_idx ra)) (n_pt ra)) true) (n_idx rb) <=
+   edge_end pl (n_idx ra))%nat.
+Proof. exact sliced_closed_wrap_inhabited. Qed.
+Example C07_aligned_open_inhabited : exists pl p1 p2 r1 r2,
+  pclosed pl = false /\ nearest_one ROps pl p1 = Ok r1 /\ nearest_one ROps pl p2 = Ok r2.
+Proof. exact aligned_open_inhabited. Qed.
+Example C07_aligned_closed_inhabited : exists pl p1 p2 f, pclosed pl = true /\ aligned_flip ROps pl p1 p2 = Ok f.
+Proof. exact aligned_closed_inhabited. Qed.
 
-Definition C07_all := (C07_closest_point_on_segment, C07_closest_point_optimal, C07_on_segment_iff_within_eps,
+Definition C07_all := (C07_sliced_at_points_closed_total, C07_closest_point_on_segment, C07_closest_point_optimal, C07_on_segment_iff_within_eps,
   C07_on_segment_uses_closest_point, C07_pairwise_is_rowwise, C07_nearest_total, C07_nearest_stacked_is_rowwise,
   C07_nearest_is_min_over_segments, C07_nearest_outputs_consistent, C07_nearest_ties_lowest_index,
   C07_nearest_returns_requested_refuted, C07_nearest_returns_requested_partial,
